@@ -437,3 +437,52 @@ package fsutil
 //@   effects Utimes
 //@   ensures dirtime: result == nil && prevErr == nil && d.IsDir() && haskey(dw.dirModTimes, path) ==> cnt(Utimes) == old(cnt(Utimes)) + 1 && arg(Utimes, 0) == path && arg(Utimes, 1) * 1000000000 + arg(Utimes, 2) == dw.dirModTimes[path]
 //@   ensures other: prevErr != nil || !d.IsDir() || !haskey(dw.dirModTimes, path) ==> cnt(Utimes) == old(cnt(Utimes))
+
+// The disk writer's per-change decision logic. All statements are about the
+// (last) effect of each kind performed by this call:
+//  - the old entry is inspected with Lstat only, never Stat
+//  - delete: RemoveAll(dest/p) and then, if configured, exactly one notification
+//  - directory over directory: metadata rewritten in place, nothing removed or renamed
+//  - otherwise the entry is created, its metadata applied (times last), and only
+//    then renamed over dest/p; the old entry is removed first iff it switches
+//    between directory and non-directory
+//  - the creation arm is chosen by the mode: directory first, then device/fifo,
+//    then symlink, then hard link, else regular file
+//  - non-content entries are notified exactly once, after everything else;
+//    content is requested only for regular non-link files, exactly once
+//@ pred specIsSpecial(fi os.FileInfo) bool = fi.Mode() & os.ModeDevice != 0 || fi.Mode() & os.ModeNamedPipe != 0
+//@ func DiskWriter.HandleChange
+//@   property C01 C03 C05 C02
+//@   requires dw != nil && dw.dirModTimes != nil
+//@   requires err == nil && kind != ChangeKindDelete ==> fi != nil && (isptr(fi.Sys(), types.Stat) ==> asptr(fi.Sys(), types.Stat) != nil)
+//@   requires exclusive_callbacks: dw.opt.SyncDataCb == nil || dw.opt.AsyncDataCb == nil
+//@   modifies heap
+//@   effects *
+//@   ensures passerr: err != nil ==> retErr == err && clk() == old(clk())
+//@   ensures lstat_only: cnt(Stat) == old(cnt(Stat))
+//@   ensures inspect: cnt(Lstat) > old(cnt(Lstat)) ==> arg(Lstat, 0) == filepath.Join(old(dw.dest), p)
+//@   ensures del: err == nil && kind == ChangeKindDelete && retErr == nil && cnt(RemoveAll) > old(cnt(RemoveAll)) ==> cnt(RemoveAll) == old(cnt(RemoveAll)) + 1 && arg(RemoveAll, 0) == filepath.Join(old(dw.dest), p) && (old(dw.opt.NotifyCb) != nil ==> cnt(Notify) == old(cnt(Notify)) + 1 && arg(Notify, 0) == kind && arg(Notify, 1) == p && when(RemoveAll) < when(Notify))
+//@   ensures del_filtered: err == nil && kind == ChangeKindDelete && retErr == nil && cnt(RemoveAll) == old(cnt(RemoveAll)) ==> cnt(Notify) == old(cnt(Notify)) && old(dw.filter) != nil && !arg(FilterCall, 1)
+//@   ensures del_only: kind == ChangeKindDelete ==> cnt(Lstat) == old(cnt(Lstat)) && cnt(Rename) == old(cnt(Rename)) && cnt(Mkdir) == old(cnt(Mkdir)) && cnt(GoSpawn) == old(cnt(GoSpawn))
+//@   ensures filtered: err == nil && kind != ChangeKindDelete && retErr == nil && cnt(Lstat) == old(cnt(Lstat)) ==> cnt(Notify) == old(cnt(Notify)) && cnt(GoSpawn) == old(cnt(GoSpawn)) && cnt(Rename) == old(cnt(Rename)) && cnt(RemoveAll) == old(cnt(RemoveAll)) && cnt(Mkdir) == old(cnt(Mkdir))
+//@   ensures lstat_after_filter: err == nil && kind != ChangeKindDelete && retErr == nil && (old(dw.filter) == nil || arg(FilterCall, 1)) ==> cnt(Lstat) > old(cnt(Lstat))
+//@   ensures dir_over_dir: err == nil && kind != ChangeKindDelete && retErr == nil && cnt(Lstat) > old(cnt(Lstat)) && cnt(Mkdir) == old(cnt(Mkdir)) && fi.IsDir() ==> arg(LstatRes, 0) != nil && arg(LstatRes, 0).IsDir() && cnt(RemoveAll) == old(cnt(RemoveAll)) && cnt(Rename) == old(cnt(Rename)) && cnt(Utimes) > old(cnt(Utimes)) && arg(Utimes, 0) == filepath.Join(old(dw.dest), p)
+//@   ensures meta_before_rename: kind != ChangeKindDelete && retErr == nil && cnt(Rename) > old(cnt(Rename)) ==> when(Utimes) < when(Rename) && cnt(Utimes) > old(cnt(Utimes)) && arg(Rename, 1) == filepath.Join(old(dw.dest), p) && arg(Utimes, 0) == arg(Rename, 0)
+//@   ensures remove_on_switch: kind != ChangeKindDelete && retErr == nil && cnt(RemoveAll) > old(cnt(RemoveAll)) ==> arg(RemoveAll, 0) == filepath.Join(old(dw.dest), p) && arg(LstatRes, 0) != nil && arg(LstatRes, 0).IsDir() != fi.IsDir() && when(RemoveAll) < when(Rename) && when(Utimes) < when(RemoveAll) && cnt(Rename) > old(cnt(Rename))
+//@   ensures switch_removes: kind != ChangeKindDelete && retErr == nil && cnt(Rename) > old(cnt(Rename)) && arg(LstatRes, 0).IsDir() != fi.IsDir() ==> cnt(RemoveAll) > old(cnt(RemoveAll))
+//@   ensures dir_arm: kind != ChangeKindDelete && fi.IsDir() ==> cnt(Symlink) == old(cnt(Symlink)) && cnt(Link) == old(cnt(Link)) && cnt(OpenFile) == old(cnt(OpenFile)) && cnt(Mknod) == old(cnt(Mknod)) && cnt(GoSpawn) == old(cnt(GoSpawn))
+//@   ensures dir_mode: kind != ChangeKindDelete && retErr == nil && cnt(MkdirOK) > old(cnt(MkdirOK)) ==> fi.IsDir() && arg(Mkdir, 1) == fi.Mode() && haskey(old(dw.dirModTimes), filepath.Join(old(dw.dest), p))
+//@   ensures special_arm: kind != ChangeKindDelete && !fi.IsDir() && specIsSpecial(fi) ==> cnt(Mkdir) == old(cnt(Mkdir)) && cnt(Symlink) == old(cnt(Symlink)) && cnt(Link) == old(cnt(Link)) && cnt(OpenFile) == old(cnt(OpenFile)) && cnt(GoSpawn) == old(cnt(GoSpawn))
+//@   ensures symlink_arm: kind != ChangeKindDelete && !fi.IsDir() && !specIsSpecial(fi) && fi.Mode() & os.ModeSymlink != 0 ==> cnt(Mkdir) == old(cnt(Mkdir)) && cnt(Mknod) == old(cnt(Mknod)) && cnt(Link) == old(cnt(Link)) && cnt(OpenFile) == old(cnt(OpenFile)) && cnt(GoSpawn) == old(cnt(GoSpawn))
+//@   ensures plain_arm: kind != ChangeKindDelete && !fi.IsDir() && !specIsSpecial(fi) && fi.Mode() & os.ModeSymlink == 0 ==> cnt(Mkdir) == old(cnt(Mkdir)) && cnt(Mknod) == old(cnt(Mknod)) && cnt(Symlink) == old(cnt(Symlink))
+//@   ensures link_or_file: kind != ChangeKindDelete && retErr == nil ==> cnt(Link) == old(cnt(Link)) || cnt(OpenFile) == old(cnt(OpenFile))
+//@   ensures request_regular: kind != ChangeKindDelete && cnt(GoSpawn) > old(cnt(GoSpawn)) ==> cnt(GoSpawn) == old(cnt(GoSpawn)) + 1 && cnt(OpenFile) > old(cnt(OpenFile)) && cnt(Link) == old(cnt(Link)) && cnt(Notify) == old(cnt(Notify)) && old(dw.opt.AsyncDataCb) != nil
+//@   ensures regular_requests: kind != ChangeKindDelete && retErr == nil && cnt(OpenFile) > old(cnt(OpenFile)) && old(dw.opt.AsyncDataCb) != nil ==> cnt(GoSpawn) == old(cnt(GoSpawn)) + 1
+//@   note notify_once: the EEXIST retry consults the filter again; a filter that answers differently the second time is excluded by the FilterCall conjunct
+//@   ensures notify_once: err == nil && kind != ChangeKindDelete && retErr == nil && cnt(Lstat) > old(cnt(Lstat)) && cnt(OpenFile) == old(cnt(OpenFile)) && old(dw.opt.NotifyCb) != nil && (old(dw.filter) == nil || arg(FilterCall, 1)) ==> cnt(Notify) == old(cnt(Notify)) + 1 && arg(Notify, 0) == kind && arg(Notify, 1) == p && when(Notify) == clk()
+//@   ensures notify_atmost: cnt(Notify) <= old(cnt(Notify)) + 1
+
+//@ func nextSuffix
+//@   property C01
+//@   modifies global rand
+//@   effects MuLock MuUnlock
